@@ -263,8 +263,19 @@ def load_bytes(buf, orig):
     return (1, None) if f == orig else (2, f)
 
 
-def fault_positions(n, kind, part, parts):
-    return [i for i in range(n) if i % parts == part]
+def fault_positions(buf, kind, part, parts):
+    """positions of a batch.  trunc / xorMM: every byte of the file; hdrMM (boundary-directed): the 128 bytes that
+    follow every npy magic string visible in the file (header length field and header dictionary of each member)"""
+    n = len(buf)
+    if kind.startswith("hdr"):
+        pos, i = [], buf.find(b"\x93NUMPY")
+        while i >= 0:
+            pos += [p for p in range(i, min(n, i + 128))]
+            i = buf.find(b"\x93NUMPY", i + 1)
+        pos = sorted(set(pos))
+    else:
+        pos = range(n)
+    return [p for k, p in enumerate(pos) if k % parts == part]
 
 
 def apply_fault(buf, kind, i):
@@ -279,7 +290,7 @@ def apply_fault(buf, kind, i):
 def impl_fault(case):
     spec, compressed, kind, part, parts, only = case
     orig, buf = saved_file(spec, compressed)
-    pos = fault_positions(len(buf), kind, part, parts) if only is None else list(only)
+    pos = fault_positions(buf, kind, part, parts) if only is None else list(only)
     outs, hist, diffs = [], {}, []
     for i in pos:
         code, info = load_bytes(apply_fault(buf, kind, i), orig)
@@ -293,7 +304,7 @@ def impl_fault(case):
                                                                         for k, v in info.items()}})
     # the complete file itself must load as the original
     whole, _ = load_bytes(buf, orig)
-    return {"in": orig, "len": len(buf), "positions": pos if only is not None else None, "outs": outs, "hist": hist,
+    return {"in": orig, "len": len(buf), "positions": pos, "outs": outs, "hist": hist,
             "diffs": diffs, "whole": whole}
 
 
@@ -400,16 +411,21 @@ def gen_fault_files(tier, rng):
     big = [
         {"fmt": "coo", "shape": [30, 40], "axes": None, "pattern": "full", "dtype": "int64", "fill": "0", "seed": 7},
         {"fmt": "gcxs", "shape": [30, 40], "axes": [0], "pattern": "full", "dtype": "int64", "fill": "0", "seed": 8},
+        {"fmt": "coo", "shape": [40, 50], "axes": None, "pattern": "partial", "dtype": "int64", "fill": "0", "seed": 9},
     ]
     kinds = ["trunc", "xorff", "xor01"]
     allbits = ["xor02", "xor04", "xor08", "xor10", "xor20", "xor40", "xor80"]
+    hdr = ["hdr01", "hdr02", "hdr04", "hdr08", "hdr10", "hdr20", "hdr40", "hdr80"]   # only meaningful on uncompressed files
     files = []
     if tier == "quick":
         for s in small[:4]:
             for comp in (True, False):
-                files.append((s, comp, kinds, 2))
+                files.append((s, comp, kinds + ([] if comp else hdr), 2))
         files.append((big[0], True, kinds, 12))
+        files.append((big[2], True, kinds, 12))
         files.append((big[1], False, kinds, 24))
+        files.append((big[1], False, hdr, 1))
+        files.append((big[0], False, hdr, 1))
     else:
         for s in small:
             for comp in (True, False):
@@ -595,8 +611,7 @@ def campaign(build, tier, seed, report, budget=1):
         ci = f_i[k]
         case, r = fcases[ci], fres[ci]
         tag("verdict", "c14_fault", code)
-        pos = fault_positions(r["len"], case[2], case[3], case[4])
-        bad = [p for p, o in zip(pos, r["outs"], strict=True) if o == 2]
+        bad = [p for p, o in zip(r["positions"], r["outs"], strict=True) if o == 2]
         v = {"property": "C14", "op": "load_npz_damaged", "kind": kind_of(code), "clause": None, "fault_kind": case[2],
              "case": {"spec": case[0], "compressed": case[1], "kind": case[2], "file_length": r["len"], "positions": bad[:50]},
              "impl": r["diffs"], "verdict_code": code,
